@@ -11,7 +11,13 @@ Import ListNotations.
      fx_hull    c9a2516: a member defined before its table lay outside the parent's range
      fx_alldecl 036f9b8: one entry per local NAME (the last declaration) instead of per declaration
      fx_undecl  b639f4b: `function M.f() end` in a file that never defines M had no entry
-     fx_ownfile d582d9c: members defined in another file were listed with that file's coordinates *)
+     fx_ownfile d582d9c: members defined in another file were listed with that file's coordinates
+     fx_wsdecl  f53e54d: workspace/symbol looked at the LAST declaration of a local name only
+     fx_wsnested 6cf65e9: ... and skipped the bodies of global functions
+     fx_wsgmem  ec5aedd: ... and the members of globals defined through `_G.`
+   and, in the first-pass analysis (one-line switch Symbols.deep_global_fix, 8e7bd1d): a member
+   defined at an outer level than the definition of its global was recorded nowhere.
+   fx_round2 = the code after d582d9c, before the last three. *)
 Theorem C19_deployed_is_repaired : deployed = fx_all.
 Proof. reflexivity. Qed.
 Print Assumptions C19_deployed_is_repaired.
@@ -158,8 +164,9 @@ Definition C19_outline_complete_full : Prop :=
 Theorem C19_outline_complete_full_witnesses :
   map (full_cover fx_round1) [w_global; w_rich; w_local; w_assigned; w_shadow; w_before; w_undeclared; w_member_lost] =
     [Some true; Some false; Some false; Some false; Some false; Some true; Some false; Some false] /\
-  map (full_cover deployed) [w_global; w_rich; w_local; w_assigned; w_shadow; w_before; w_undeclared; w_member_lost] =
-    [Some true; Some true; Some true; Some true; Some true; Some true; Some true; Some false].
+  map (full_cover deployed) [w_global; w_rich; w_local; w_assigned; w_shadow; w_before; w_undeclared; w_member_lost;
+                             w_deep_global; w_G_member; w_depth2] =
+    [Some true; Some false; Some true; Some true; Some true; Some true; Some true; Some false; Some true; Some true; Some false].
 Proof. exact full_cover_witnesses. Qed.
 Print Assumptions C19_outline_complete_full_witnesses.
 
@@ -173,13 +180,13 @@ Print Assumptions C19_outline_complete_full_refuted.
      `local f = function`).  EVERY such declaration (not only the last one of each name - class shadowed_top_local,
      repaired) has its own "local" entry nm whose s_decl is l, function-valued iff the declaration is, and then its
      range is the Union of the function's Loc and the identifier; by C19_range_contains_decl the range contains l.
-   * `asg_block nm b = true`: nm occurs as an assignment target `nm = ...` / `function nm() end` at a place the
+   * `asg_block nm b = true`: nm occurs as an assignment target `nm = ...` / `function nm() end` / `_G.nm = ...` at a place the
      analysis visits (anywhere, any depth; not inside the surplus values of `local a = v1, v2, v3`, which LuaHelper
      never analyses); `chk_block (not_named nm) any_target b = true`: no local, parameter or loop variable of the file
      is named nm, table constructors / if statements have as many values as keys / blocks as conditions (parser
      invariant).  Then the outline has a non-local entry nm (see C19_outline_globals_lexical for the lexical guard).
    * For any boolean predicate pt that holds of (name, identifier Loc, Loc of the function literal if the value at the
-     same index is one) for EVERY assignment target `name = value` of the file, every non-local entry of a defined
+     same index is one) for EVERY assignment target `name = value` / `_G.name = value` (SymbolsGlobals.tgt_sig) of the file, every non-local entry of a defined
      name satisfies `from_target`: pt holds of (s_key, s_decl, ofl) for some ofl, the entry is function-valued iff
      ofl is a literal, and its range is then the Union of that literal and the identifier - the entry is located at
      one of the file's assignment targets of that name (s_undecl marks the container entries of names the file never
@@ -283,3 +290,82 @@ Theorem C19_workspace_candidate_partial :
               forall pt, chk_block any_name pt b = true -> exists ofl, pt (nm, w_loc w, ofl) = true.
 Proof. exact (ws_candidate_bytes deployed). Qed.
 Print Assumptions C19_workspace_candidate_partial.
+
+(* ====================================================================== round 3: five reported completeness gaps
+   (proofs: Proofs/SymbolsWs.v; witnesses by vm_compute on the parsed bytes).
+   Reading of the property fixed in Spec/SymbolSpec.v, widened in this round: "every function (including table members
+   such as t.f and t:m)" = members at ANY depth (DFunc "N.sub.h"), `_G.n = v` / `function _G.b.k` are declarations of the
+   global n / the member b.k; "any global or function declared anywhere in the workspace" = also every function-valued
+   `local` declaration at any nesting depth, each declaration separately (DLocalFn). *)
+From LH Require Import Proofs.SymbolsWs.
+
+(* the symbol tables' side of the two workspace/symbol repairs, for EVERY state: every function-valued local variable of
+   every scope of the file's scope tree (main block, bodies of local AND global functions, of member functions, nested
+   blocks; every declaration of a name separately) is a candidate under its own name located at its identifier.
+   Missing for the property's clause: that the first pass files each `local function` declaration of the AST under a
+   scope of this tree (correspondence on the real server: legs c19.wssym / c19.docsym, cases of kind N), and the
+   selection step (matcher, cut at 200). *)
+Theorem C19_workspace_local_functions_partial :
+  forall s sc nm vs v,
+    reach (main_scope s) sc -> In (nm, vs) (s_vars sc) -> In v vs -> is_some (v_func v) = true ->
+    In (mkW nm true (v_loc v) false) (file_wsyms deployed s).
+Proof. exact ws_local_functions. Qed.
+Print Assumptions C19_workspace_local_functions_partial.
+
+(* ... and every member of every global of the file - defined through `_G.` or not - is a candidate <global>.<key>
+   located at the member's identifier *)
+Theorem C19_workspace_global_members_partial :
+  forall s k g mk mv,
+    In (k, g) (globs s) -> In (mk, mv) (v_sub g) ->
+    In (mkW (k ++ [c_dot] ++ mk) (is_some (v_func mv)) (v_loc mv) false) (file_wsyms deployed s).
+Proof. exact ws_global_members. Qed.
+Print Assumptions C19_workspace_global_members_partial.
+
+(* both fail for the code before the repairs (fx_round2), on the reported witnesses; the deployed code answers them:
+   `local function dup() end  local dup = 5` (only the second declaration before),
+   `function gouter() local function inner() end end` (inner never returned),
+   `_G.GT = {}  function _G.GT.f() end` (GT.f never returned) *)
+Theorem C19_workspace_prefix_refuted :
+  (ws_of_bytes fx_round2 w_dup = Some [(n_dup, false, mkLoc 2 6 2 9, false)] /\
+   ws_of_bytes deployed w_dup = Some [(n_dup, true, mkLoc 1 15 1 18, false); (n_dup, false, mkLoc 2 6 2 9, false)]) /\
+  (ws_of_bytes fx_round2 w_nested = Some [(n_gouter, true, mkLoc 1 9 1 15, false)] /\
+   ws_of_bytes deployed w_nested = Some [(n_gouter, true, mkLoc 1 9 1 15, false); (n_inner, true, mkLoc 2 17 2 22, false)]) /\
+  (ws_of_bytes fx_round2 w_G_member = Some [(n_GT, false, mkLoc 1 3 1 5, true)] /\
+   ws_of_bytes deployed w_G_member = Some [(n_GT, false, mkLoc 1 3 1 5, true); (n_GT_f, true, mkLoc 2 15 2 16, false)]).
+Proof. exact (conj ws_redeclared_witness (conj ws_nested_witness ws_G_member_witness)). Qed.
+Print Assumptions C19_workspace_prefix_refuted.
+
+(* `function init() Cfg = {} end  init()  function Cfg.load() end`: the member of a global defined at a deeper level
+   (former shape (b) of member_lost) is a child entry at its definition and a workspace candidate *)
+Example C19_deep_global_repaired :
+  (exists ss s c, outline_of_bytes deployed w_deep_global = Some ss /\ nth_error ss 0 = Some s /\ s_children s = [c] /\
+                  s_key s = n_Cfg /\ s_decl s = mkLoc 1 16 1 19 /\ s_loc s = mkLoc 1 16 3 23 /\
+                  c_key c = n_Cfg_load /\ c_fn c = true /\ c_decl c = mkLoc 3 13 3 17 /\ c_loc c = mkLoc 3 0 3 23) /\
+  ws_of_bytes deployed w_deep_global =
+    Some [(n_Cfg, false, mkLoc 1 16 1 19, false); (n_Cfg_load, true, mkLoc 3 13 3 17, false); (n_init, true, mkLoc 1 9 1 13, false)].
+Proof. exact deep_global_witness. Qed.
+
+(* the two OPEN classes are exact boolean predicates (Proofs/SymbolsJudge.v), extracted into the driver: every deviation of
+   the correspondence legs outside them is reported as a VIOLATION (class "unexplained").
+     cls_depth2        a DFunc declaration whose key has >= 2 dots (members below the first level: in neither answer)
+     cls_member_lost   a first-level DFunc whose table b (a) has a function-valued entry, or (c) already has a child of that
+                       key located elsewhere, or (d) is bound as a whole more than once in the file, or (e) is reached
+                       through `_G.b.k` while b is also bound as a local / parameter / loop variable
+   They are satisfiable and separate the witnesses: *)
+Example C19_open_classes_examples :
+  map (fun d => (cls_depth2 d, shape_fn_base (hd [] (split_dot (d_key d))) [])) 
+      [mkD DFunc [78;46;115;117;98;46;104]%N []; mkD DFunc [104;46;103;101;116]%N []; mkD DGlobal [78]%N []] =
+    [(true, false); (false, false); (false, false)] /\
+  full_cover deployed w_depth2 = Some false /\ full_cover deployed w_member_lost = Some false /\
+  full_cover deployed w_deep_global = Some true /\ full_cover deployed w_G_member = Some true.
+Proof. vm_compute. repeat split. Qed.
+
+(* the completeness theorems above (C19_outline_complete_partial second clause, C19_outline_globals_lexical,
+   C19_workspace_candidate_partial) now count `_G.nm = v` / `function _G.nm() end` / `_G["nm"] = v` as an assignment to
+   the global nm (SymbolsGlobals.g_is): the guards hold on the `_G.` witness, for the global GT defined only through `_G.` *)
+Example C19_G_target_guards :
+  parsed_ok shp_block w_G_member = true /\ parsed_ok (asgU_block n_GT) w_G_member = true /\
+  parsed_ok (chk_block (not_named n_GT) any_target) w_G_member = true /\ parsed_ok (asg_block n_GT) w_G_member = true /\
+  (exists ss, outline_of_bytes deployed w_G_member = Some ss /\ map s_key ss = [n_GT] /\
+              map s_name ss = [[95;71;46;71;84]%N] /\ map (fun s => map c_key (s_children s)) ss = [[n_GT_f]]).
+Proof. vm_compute. repeat split. eexists. repeat split. Qed.
